@@ -61,6 +61,31 @@ Theorem C17_buffer_empty_after_commit : forall dd s, cache (fst (scommit dd s)) 
 Proof. exact commit_clears_cache. Qed.
 Print Assumptions C17_buffer_empty_after_commit.
 
+(* The wrapped database may itself be a ScratchDB layer s1 (a squash_changes block opened on a batch trie);
+   the inner ScratchDB then wraps what reads through s1 see ([read_view]).  Reads inside the inner batch go
+   through both layers; its normal exit replays its buffer into s1's buffer — last write wins, a buffered
+   delete becomes a DELETED marker in s1 iff deletes were requested — without touching s1's own wrapped
+   store; its exit by exception is C17_abort (s1 is not an argument of it at all). *)
+Theorem C17_nested_read : forall s1 ops k, NoDup (akeys (cache s1)) ->
+  sget (fst (srun (scratch_new (store_of (read_view s1))) ops)) k =
+  match last_action ops k with
+  | Some (Some v) => Ok v
+  | Some None | None => sget s1 k
+  end.
+Proof. exact nested_read_spec. Qed.
+
+Theorem C17_nested_commit : forall s1 ops dd, NoDup (akeys (cache s1)) ->
+  let s2 := fst (srun (scratch_new (store_of (read_view s1))) ops) in
+  let s1' := sreplay dd (cache s2) s1 in
+  wrapped s1' = wrapped s1 /\ NoDup (akeys (cache s1')) /\
+  forall k, aget (cache s1') k =
+            match last_action ops k with
+            | Some (Some v) => Some (Some v)
+            | Some None => if dd then Some None else aget (cache s1) k
+            | None => aget (cache s1) k
+            end.
+Proof. exact nested_commit_spec. Qed.
+
 (* Non-vacuity: a concrete batch with a pre-existing key deleted, re-read, and a
    new key written; the statements above evaluate to what one expects. *)
 Example C17_example :
@@ -72,3 +97,5 @@ Example C17_example :
   /\ cells (wrapped (fst (scommit false (fst (srun (scratch_new w) ops)))))
      = [(B 1 0x61, B 2 0x7631); (B 1 0x62, B 1 0x39)].
 Proof. vm_compute. repeat split. Qed.
+Print Assumptions C17_nested_read.
+Print Assumptions C17_nested_commit.
